@@ -8,6 +8,12 @@
 //! `cut=<spec>` (async): before the ordinary scenario on a node that is healthy throughout,
 //! one call on the cold node is abandoned: its future is polled up to a cut point (before /
 //! during / after the TCP connect, while waiting for the reply) and then dropped.
+//! `hc=1`: caller B's request is in flight on the node's cached connection while a fleet health
+//! check of an endpoint the node does not have fails; the node answers B afterwards, in time.
+//! `tags=.. slow=<i> satt=<n> sdelay=<ms>`: a broadcast whose node i stays silent on every one of
+//! its n attempts, with a retry delay of that many milliseconds between them.
+//! `tog=<rounds>` (async): broadcasts for tag "a" while another task keeps re-registering node
+//! "x" with tags [a] (server A) / tags [b] (server B).
 use repe::{AsyncFleet, Fleet, FleetOptions, NodeConfig, RepeError, RetryPolicy};
 use repe_verif_harness::*;
 use std::cell::{Cell, RefCell};
@@ -35,19 +41,22 @@ struct Duo {
     b_start: Mutex<Option<Instant>>,
     /// 1: the node wrote its reply to B's first request while B's deadline was still DUO_MARGIN away; 2: it could not
     ready: AtomicU64,
+    /// (`hc=1`) the node keeps reading a connection while its reply to "/slow" is pending
+    serve_on: bool,
 }
 static DUO: Mutex<Option<Arc<Duo>>> = Mutex::new(None);
 thread_local! { static ROLE: Cell<u8> = const { Cell::new(0) }; }
 const DUO_T: Duration = Duration::from_millis(1500);
 const DUO_MARGIN: Duration = Duration::from_millis(450);
 
-fn ok_frame(id: u64, query: &[u8], body: &[u8]) -> Vec<u8> {
+fn ok_frame(id: u64, query: &[u8], body: &[u8]) -> Vec<u8> { reply_frame(id, query, 0, 2, body) }
+fn reply_frame(id: u64, query: &[u8], ec: u32, fmt: u16, body: &[u8]) -> Vec<u8> {
     let mut f = Vec::new();
     f.extend_from_slice(&((48 + query.len() + body.len()) as u64).to_le_bytes());
     f.extend_from_slice(&0x1507u16.to_le_bytes()); f.push(1); f.push(0); f.extend_from_slice(&0u32.to_le_bytes());
     f.extend_from_slice(&id.to_le_bytes());
     f.extend_from_slice(&(query.len() as u64).to_le_bytes()); f.extend_from_slice(&(body.len() as u64).to_le_bytes());
-    f.extend_from_slice(&1u16.to_le_bytes()); f.extend_from_slice(&2u16.to_le_bytes()); f.extend_from_slice(&0u32.to_le_bytes());
+    f.extend_from_slice(&1u16.to_le_bytes()); f.extend_from_slice(&fmt.to_le_bytes()); f.extend_from_slice(&ec.to_le_bytes());
     f.extend_from_slice(query); f.extend_from_slice(body);
     f
 }
@@ -136,18 +145,29 @@ impl Node {
             let duo = DUO.lock().unwrap().clone();
             if let Some(d) = duo {
                 if query == b"/hang" { d.hang.fetch_add(1, Ordering::SeqCst); continue; }
+                // (`hc=1`) an endpoint the node does not have: answered at once with MethodNotFound (6)
+                if query == b"/nohealth" { if s.write_all(&reply_frame(id, query, 6, 3, b"no such endpoint")).is_err() { return; } continue; }
                 if query == b"/slow" {
                     // answer B once A has given its attempt up (capped), on the connection the request came on
                     let n = d.slow.fetch_add(1, Ordering::SeqCst) + 1;
-                    let t0 = Instant::now();
-                    while !d.a_gone.load(Ordering::SeqCst) && t0.elapsed() < 4 * DUO_T { std::thread::sleep(Duration::from_millis(1)); }
-                    let gone = d.a_gone.load(Ordering::SeqCst);
-                    let w = s.write_all(&ok_frame(id, query, b"{\"ok\":true}"));
-                    if n == 1 {
-                        let in_time = d.b_start.lock().unwrap().map(|b| b.elapsed() + DUO_MARGIN <= DUO_T).unwrap_or(false);
-                        d.ready.store(if gone && in_time { 1 } else { 2 }, Ordering::SeqCst);
+                    let query = query.to_vec();
+                    let reply = move |d: &Duo, mut s: &TcpStream| {
+                        let t0 = Instant::now();
+                        while !d.a_gone.load(Ordering::SeqCst) && t0.elapsed() < 4 * DUO_T { std::thread::sleep(Duration::from_millis(1)); }
+                        let gone = d.a_gone.load(Ordering::SeqCst);
+                        let w = s.write_all(&ok_frame(id, &query, b"{\"ok\":true}"));
+                        if n == 1 {
+                            let in_time = d.b_start.lock().unwrap().map(|b| b.elapsed() + DUO_MARGIN <= DUO_T).unwrap_or(false);
+                            d.ready.store(if gone && in_time { 1 } else { 2 }, Ordering::SeqCst);
+                        }
+                        w
+                    };
+                    // (`hc=1`) the node goes on reading this connection (the health probe arrives on it) while B's reply is pending
+                    if d.serve_on {
+                        match s.try_clone() { Ok(s2) => { std::thread::spawn(move || { let _ = reply(&d, &s2); }); } Err(_) => return }
+                        continue;
                     }
-                    if w.is_err() { return; }
+                    if reply(&d, &s).is_err() { return; }
                     continue;
                 }
             }
@@ -314,7 +334,7 @@ impl<F: std::future::Future> std::future::Future for WithRole<F> {
 /// whether the node really answered B in time (ready=1), and two calls afterwards.
 fn run_duo(kind: &str, max: usize, api: &str) -> String {
     let node = Node::start();
-    let d = Arc::new(Duo { a_att: AtomicU64::new(0), b_att: AtomicU64::new(0), a_gone: AtomicBool::new(false), hang: AtomicU64::new(0), slow: AtomicU64::new(0), b_start: Mutex::new(None), ready: AtomicU64::new(0) });
+    let d = Arc::new(Duo { a_att: AtomicU64::new(0), b_att: AtomicU64::new(0), a_gone: AtomicBool::new(false), hang: AtomicU64::new(0), slow: AtomicU64::new(0), b_start: Mutex::new(None), ready: AtomicU64::new(0), serve_on: false });
     *DUO.lock().unwrap() = Some(d.clone());
     let cfg = NodeConfig::new("127.0.0.1", node.port).unwrap().with_name("n0").unwrap().with_timeout(DUO_T).unwrap();
     let opts = FleetOptions { default_timeout: DUO_T, retry_policy: RetryPolicy { max_attempts: max, delay: Duration::from_millis(1) } };
@@ -376,6 +396,81 @@ fn run_duo(kind: &str, max: usize, api: &str) -> String {
         d.b_att.load(Ordering::SeqCst), res_s(rb.0, rb.1.as_ref()), d.slow.load(Ordering::SeqCst),
         d.a_att.load(Ordering::SeqCst), res_s(ra.0, ra.1.as_ref()), d.hang.load(Ordering::SeqCst),
         (d.ready.load(Ordering::SeqCst) == 1) as u8, fl.join(","));
+    *DUO.lock().unwrap() = None;
+    node.stop.store(true, Ordering::SeqCst);
+    node.close_conns();
+    out
+}
+
+/// `hc=1`: caller B's call ("/slow", node timeout DUO_T) is in flight on the node's cached connection
+/// (`warm=1`: opened by an earlier call; `warm=0`: opened by B's call itself) when a health check of
+/// the whole fleet probes an endpoint the node does not have: the node answers that probe at once with
+/// MethodNotFound, so the health check fails and reports the node as unhealthy. Only after the health
+/// check has returned does the node answer B's request, on the connection it came on and well inside
+/// B's deadline (`ready=1`). The node's only outcome for B's request is that timely reply. Reported:
+/// B's attempts / result, how often the node saw B's request, the health report (for information),
+/// and two calls afterwards.
+fn run_hc(kind: &str, max: usize, api: &str, warm: bool) -> String {
+    let node = Node::start();
+    // (`a_gone` is the node's signal to answer "/slow": here it is given once the health check has returned)
+    let d = Arc::new(Duo { a_att: AtomicU64::new(0), b_att: AtomicU64::new(0), a_gone: AtomicBool::new(false), hang: AtomicU64::new(0), slow: AtomicU64::new(0), b_start: Mutex::new(None), ready: AtomicU64::new(0), serve_on: true });
+    *DUO.lock().unwrap() = Some(d.clone());
+    let cfg = NodeConfig::new("127.0.0.1", node.port).unwrap().with_name("n0").unwrap().with_timeout(DUO_T).unwrap();
+    let opts = FleetOptions { default_timeout: DUO_T, retry_policy: RetryPolicy { max_attempts: max, delay: Duration::from_millis(1) } };
+    let res_s = |v: bool, e: Option<&RepeError>| if v { if e.is_some() { "value+error".to_string() } else { "value".to_string() } } else { e.map(kind_s).unwrap_or_else(|| "noerror".into()) };
+    let hc_s = |h: &std::collections::HashMap<String, repe::HealthStatus>| match h.get("n0") { None => "none".to_string(), Some(st) => if st.healthy { "healthy".to_string() } else { format!("unhealthy:{}", st.error.as_ref().map(kind_s).unwrap_or_else(|| "noerror".into())) } };
+    let msg = api == "msg";
+    let (rb, hs, fl): ((bool, Option<RepeError>), String, Vec<String>);
+    if kind == "blocking" {
+        let fleet = Arc::new(Fleet::with_options(vec![cfg], opts).unwrap());
+        if warm { let _ = fleet.call_json("n0", "/x", Some(&serde_json::json!(0))).unwrap(); }
+        let (fb, db) = (fleet.clone(), d.clone());
+        let b = std::thread::spawn(move || {
+            ROLE.with(|r| r.set(2));
+            *db.b_start.lock().unwrap() = Some(Instant::now());
+            let r = if msg { let r = fb.call_message("n0", "/slow").unwrap(); (r.value.is_some(), r.error) } else { let r = fb.call_json("n0", "/slow", Some(&serde_json::json!(2))).unwrap(); (r.value.is_some(), r.error) };
+            ROLE.with(|r| r.set(0));
+            r
+        });
+        // the node has B's request; B now waits for the reply
+        let t0 = Instant::now();
+        while d.slow.load(Ordering::SeqCst) == 0 && t0.elapsed() < Duration::from_secs(5) { std::thread::sleep(Duration::from_millis(1)); }
+        std::thread::sleep(Duration::from_millis(20));
+        hs = hc_s(&fleet.health_check("/nohealth"));
+        d.a_gone.store(true, Ordering::SeqCst);
+        rb = b.join().unwrap();
+        fl = (0..2).map(|_| { let r = fleet.call_json("n0", "/x", Some(&serde_json::json!(3))).unwrap(); res_s(r.value.is_some(), r.error.as_ref()) }).collect();
+    } else {
+        let rt = tokio::runtime::Builder::new_current_thread().enable_all().build().unwrap();
+        (rb, hs, fl) = rt.block_on(async {
+            let fleet = AsyncFleet::with_options(vec![cfg], opts).unwrap();
+            if warm { let _ = fleet.call_json("n0", "/x", Some(&serde_json::json!(0))).await.unwrap(); }
+            let (fb, db) = (fleet.clone(), d.clone());
+            let b = WithRole { role: 2, fut: Box::pin(async move {
+                *db.b_start.lock().unwrap() = Some(Instant::now());
+                if msg { let r = fb.call_message("n0", "/slow").await.unwrap(); (r.value.is_some(), r.error) } else { let r = fb.call_json("n0", "/slow", Some(&serde_json::json!(2))).await.unwrap(); (r.value.is_some(), r.error) }
+            }) };
+            let (fh, dh) = (fleet.clone(), d.clone());
+            let h = async move {
+                let t0 = Instant::now();
+                while dh.slow.load(Ordering::SeqCst) == 0 && t0.elapsed() < Duration::from_secs(5) { tokio::time::sleep(Duration::from_millis(1)).await; }
+                tokio::time::sleep(Duration::from_millis(20)).await;
+                let hs = fh.health_check("/nohealth").await;
+                dh.a_gone.store(true, Ordering::SeqCst);
+                hs
+            };
+            let (rb, hs) = tokio::join!(b, h);
+            let mut fl = Vec::new();
+            for _ in 0..2 { let r = fleet.call_json("n0", "/x", Some(&serde_json::json!(3))).await.unwrap(); fl.push(res_s(r.value.is_some(), r.error.as_ref())); }
+            (rb, hc_s(&hs), fl)
+        });
+    }
+    // the node thread records `ready` right after writing its reply to B's first request: wait for that record
+    let t0 = Instant::now();
+    while d.ready.load(Ordering::SeqCst) == 0 && t0.elapsed() < 5 * DUO_T { std::thread::sleep(Duration::from_millis(1)); }
+    let out = format!("att={:x} res={} slow={:x} ready={} hc={} follow={}",
+        d.b_att.load(Ordering::SeqCst), res_s(rb.0, rb.1.as_ref()), d.slow.load(Ordering::SeqCst),
+        (d.ready.load(Ordering::SeqCst) == 1) as u8, hs, fl.join(","));
     *DUO.lock().unwrap() = None;
     node.stop.store(true, Ordering::SeqCst);
     node.close_conns();
@@ -478,18 +573,137 @@ fn run_cut(max: usize, nfollow: usize, cut: &str, api: &str, rtk: &str, busy: bo
     out
 }
 
+/// a plain healthy node for the `tog` cases: every request is answered at once; counts accepted
+/// connections and the requests for the case's own method (`want`)
+struct TogServer { port: u16, conns: Arc<AtomicU64>, requests: Arc<AtomicU64>, stop: Arc<AtomicBool> }
+impl TogServer {
+    fn start(want: Vec<u8>) -> TogServer {
+        let l = TcpListener::bind("127.0.0.1:0").unwrap();
+        l.set_nonblocking(true).unwrap();
+        let port = l.local_addr().unwrap().port();
+        let (conns, requests, stop) = (Arc::new(AtomicU64::new(0)), Arc::new(AtomicU64::new(0)), Arc::new(AtomicBool::new(false)));
+        let (c, r, st) = (conns.clone(), requests.clone(), stop.clone());
+        std::thread::spawn(move || {
+            while !st.load(Ordering::SeqCst) {
+                match l.accept() {
+                    Ok((mut s, _)) => {
+                        c.fetch_add(1, Ordering::SeqCst);
+                        let (r, want) = (r.clone(), want.clone());
+                        std::thread::spawn(move || {
+                            s.set_nonblocking(false).ok(); s.set_nodelay(true).ok();
+                            s.set_read_timeout(Some(Duration::from_secs(20))).ok();
+                            while let Ok(req) = net::read_raw_frame(&mut s) {
+                                let id = u64::from_le_bytes(req[16..24].try_into().unwrap());
+                                let ql = u64::from_le_bytes(req[24..32].try_into().unwrap()) as usize;
+                                if req[48..48 + ql] == want[..] { r.fetch_add(1, Ordering::SeqCst); }
+                                if s.write_all(&ok_frame(id, &req[48..48 + ql], b"{\"ok\":true}")).is_err() { break; }
+                            }
+                        });
+                    }
+                    Err(_) => std::thread::sleep(Duration::from_micros(100)),
+                }
+            }
+        });
+        TogServer { port, conns, requests, stop }
+    }
+}
+
+/// `tog=<rounds> tx=<k> tf=<m> tb=<j>` (async, multi-thread runtime): j tasks make `rounds` broadcasts
+/// each for tag "a" while k other tasks keep re-registering the nodes x0..x(k-1): every one alternates
+/// between (tags [a], port P) and (tags [b], server B) by remove_node + add_node of the same name. P is
+/// a bound port on which nobody listens (an attempt there is refused at once and leaves no connection
+/// behind); m permanent nodes f0..f(m-1) carry tags [a] and live on the healthy server A. Whatever the
+/// interleaving, at every moment the nodes carrying "a" are f0.. and those x that are registered at port
+/// P: server B only ever hosts nodes that do not carry "a". Reported: the broadcasts made, how many
+/// returned a map without an entry for some f node or with a foreign key (`bad`), the broadcast requests
+/// (the method is the case's own: "/t<pid>") read by server B (`hitb`), the first round after which B
+/// had been reached (`first`), whether the x nodes were really seen in both states while the broadcasts
+/// ran (`live`), and the connections server B accepted (`connb`, for information).
+fn run_tog(rounds: usize, tx: usize, tf: usize, tb: usize) -> String {
+    let method = format!("/t{}", std::process::id());
+    let (sa, sb) = (TogServer::start(method.clone().into_bytes()), TogServer::start(method.clone().into_bytes()));
+    // P: bound, not listening (kept bound for the whole case so that nobody else gets the port)
+    let dead = socket2::Socket::new(socket2::Domain::IPV4, socket2::Type::STREAM, None).unwrap();
+    dead.bind(&std::net::SocketAddr::from(([127, 0, 0, 1], 0)).into()).unwrap();
+    let pdead = dead.local_addr().unwrap().as_socket().unwrap().port();
+    let node = |name: String, port: u16, tag: &str| NodeConfig::new("127.0.0.1", port).unwrap().with_name(name).unwrap().with_tags([tag]).with_timeout(Duration::from_secs(2)).unwrap();
+    let mut cfgs: Vec<NodeConfig> = (0..tf).map(|i| node(format!("f{i}"), sa.port, "a")).collect();
+    for k in 0..tx { cfgs.push(node(format!("x{k}"), pdead, "a")); }
+    let opts = FleetOptions { default_timeout: Duration::from_secs(2), retry_policy: RetryPolicy { max_attempts: 1, delay: Duration::from_millis(1) } };
+    let rt = tokio::runtime::Builder::new_multi_thread().worker_threads(tx + tb).enable_all().build().unwrap();
+    let (pb, hitb) = (sb.port, sb.requests.clone());
+    let out = rt.block_on(async move {
+        let fleet = AsyncFleet::with_options(cfgs, opts).unwrap();
+        let stop = Arc::new(AtomicBool::new(false));
+        let togglers: Vec<_> = (0..tx).map(|k| {
+            let (fleet, stop) = (fleet.clone(), stop.clone());
+            tokio::spawn(async move {
+                let name = format!("x{k}");
+                let mut n = 0u64;
+                while !stop.load(Ordering::Relaxed) {
+                    fleet.remove_node(&name).await;
+                    fleet.add_node(node(name.clone(), pb, "b")).await.unwrap();
+                    if n % 2 == 0 { tokio::task::yield_now().await; }
+                    fleet.remove_node(&name).await;
+                    fleet.add_node(node(name.clone(), pdead, "a")).await.unwrap();
+                    if n % 3 == 0 { tokio::task::yield_now().await; }
+                    n += 1;
+                }
+                n
+            })
+        }).collect();
+        let first = Arc::new(AtomicU64::new(u64::MAX));
+        let casters: Vec<_> = (0..tb).map(|_| {
+            let (fleet, hitb, first, method) = (fleet.clone(), hitb.clone(), first.clone(), method.clone());
+            tokio::spawn(async move {
+                let (mut done, mut bad, mut xin, mut xout) = (0u64, 0u64, 0u64, 0u64);
+                for r in 0..rounds {
+                    // (once server B has been reached the case has failed: no need to go on)
+                    if first.load(Ordering::SeqCst) != u64::MAX { break; }
+                    let m = fleet.broadcast_json(&method, Some(&serde_json::json!(1)), &["a"]).await;
+                    done += 1;
+                    let fs = (0..tf).filter(|i| m.contains_key(&format!("f{i}"))).count();
+                    let xs = (0..tx).filter(|k| m.contains_key(&format!("x{k}"))).count();
+                    if fs != tf || fs + xs != m.len() { bad += 1; }
+                    if xs > 0 { xin += 1; }
+                    if xs < tx { xout += 1; }
+                    if hitb.load(Ordering::SeqCst) > 0 { first.fetch_min(r as u64, Ordering::SeqCst); }
+                }
+                (done, bad, xin, xout)
+            })
+        }).collect();
+        let (mut done, mut bad, mut xin, mut xout) = (0u64, 0u64, 0u64, 0u64);
+        for c in casters { let (d, b, i, o) = c.await.unwrap(); done += d; bad += b; xin += i; xout += o; }
+        stop.store(true, Ordering::Relaxed);
+        let mut toggles = 0u64;
+        for t in togglers { toggles += t.await.unwrap(); }
+        // (what is still on its way to server B arrives)
+        tokio::time::sleep(Duration::from_millis(30)).await;
+        let f = first.load(Ordering::SeqCst);
+        let live = toggles >= 20 && xin > 0 && xout > 0;
+        (format!("rounds={:x} bad={:x}", done, bad), if f == u64::MAX { "-".to_string() } else { format!("{f:x}") }, live, toggles, xin, xout)
+    });
+    let res = format!("{} hitb={:x} first={} live={} connb={:x}", out.0, sb.requests.load(Ordering::SeqCst), out.1, out.2 as u8, sb.conns.load(Ordering::SeqCst));
+    if std::env::var("VERIF_TOG_INFO").is_ok() { eprintln!("tog info: toggles={} xin={} xout={} a-conns={} a-reqs={}", out.3, out.4, out.5, sa.conns.load(Ordering::SeqCst), sa.requests.load(Ordering::SeqCst)); }
+    sa.stop.store(true, Ordering::SeqCst); sb.stop.store(true, Ordering::SeqCst);
+    drop(dead);
+    res
+}
+
 /// broadcast to the nodes carrying all requested tags: exactly those nodes are
 /// addressed (request counters of the fake nodes) and exactly one result each
-fn run_tags(kind: &str, node_tags: &[u64], want: u64, dup: bool, slow: Option<usize>) -> String {
+fn run_tags(kind: &str, node_tags: &[u64], want: u64, dup: bool, slow: Option<usize>, satt: Option<(usize, u64)>) -> String {
     let names = ["a", "b", "c"];
     let tag_list = |m: u64| -> Vec<String> { (0..3).filter(|i| m >> i & 1 == 1).map(|i| names[i as usize].to_string()).collect() };
     let nodes: Vec<Arc<Node>> = node_tags.iter().map(|_| Node::start()).collect();
     // slow=<i>: node i reads the request and never answers; its own timeout (400 ms) is longer than
     // the fleet's default timeout (300 ms): it still gets its (error) entry in the result
     if let Some(i) = slow { if let Some(n) = nodes.get(i) { *n.mode.lock().unwrap() = B::Silent; } }
-    let (nt, dt) = if slow.is_some() { (Duration::from_millis(400), Duration::from_millis(300)) } else { (Duration::from_secs(2), Duration::from_secs(2)) };
+    // satt=<n> sdelay=<ms>: n attempts per node with that retry delay between them; every attempt on the silent
+    // node runs into its timeout (150 ms), so its (error) entry is due after n x 150 ms + (n-1) x delay
+    let (nt, dt) = if satt.is_some() { (Duration::from_millis(150), Duration::from_millis(100)) } else if slow.is_some() { (Duration::from_millis(400), Duration::from_millis(300)) } else { (Duration::from_secs(2), Duration::from_secs(2)) };
     let cfgs: Vec<NodeConfig> = nodes.iter().enumerate().map(|(i, n)| NodeConfig::new("127.0.0.1", n.port).unwrap().with_name(format!("n{i}")).unwrap().with_tags(tag_list(node_tags[i])).with_timeout(nt).unwrap()).collect();
-    let opts = FleetOptions { default_timeout: dt, retry_policy: RetryPolicy { max_attempts: 1, delay: Duration::from_millis(1) } };
+    let opts = FleetOptions { default_timeout: dt, retry_policy: match satt { Some((n, ms)) => RetryPolicy { max_attempts: n, delay: Duration::from_millis(ms) }, None => RetryPolicy { max_attempts: 1, delay: Duration::from_millis(1) } } };
     // dup: the caller names every requested tag twice (a tag list is a set: same nodes addressed)
     let mut want_tags = tag_list(want);
     if dup { let mut again = want_tags.clone(); again.reverse(); want_tags.extend(again); }
@@ -509,14 +723,25 @@ fn run_tags(kind: &str, node_tags: &[u64], want: u64, dup: bool, slow: Option<us
 fn run_case(line: &str) -> String {
     let f = fields(line);
     let kind = f["kind"].clone();
+    if let Some(rounds) = f.get("tog").and_then(|r| r.parse::<usize>().ok()) {
+        let num = |k: &str, d: usize| f.get(k).and_then(|v| v.parse::<usize>().ok()).unwrap_or(d);
+        let (tx, tf, tb) = (num("tx", 1), num("tf", 3), num("tb", 1));
+        return guard(move || run_tog(rounds, tx, tf, tb)).unwrap_or_else(|_| "crash=panic".into());
+    }
     if f.contains_key("tags") {
         let nt: Vec<u64> = f["tags"].split('.').map(|s| s.parse().unwrap()).collect();
         let want: u64 = f["want"].parse().unwrap();
         let dup = f.get("dup").map(|d| d == "1").unwrap_or(false);
         let slow = f.get("slow").and_then(|s| s.parse::<usize>().ok());
-        return guard(move || run_tags(&kind, &nt, want, dup, slow)).unwrap_or_else(|_| "crash=panic".into());
+        let satt = f.get("satt").and_then(|s| s.parse::<usize>().ok()).map(|n| (n, f.get("sdelay").and_then(|s| s.parse::<u64>().ok()).unwrap_or(1)));
+        return guard(move || run_tags(&kind, &nt, want, dup, slow, satt)).unwrap_or_else(|_| "crash=panic".into());
     }
     let max: usize = f["max"].parse().unwrap();
+    if f.contains_key("hc") {
+        let api = f.get("api").cloned().unwrap_or_else(|| "json".into());
+        let warm = f.get("warm").map(|w| w == "1").unwrap_or(false);
+        return guard(move || run_hc(&kind, max, &api, warm)).unwrap_or_else(|_| "crash=panic".into());
+    }
     if f.contains_key("duo") {
         let api = f.get("api").cloned().unwrap_or_else(|| "json".into());
         return guard(move || run_duo(&kind, max, &api)).unwrap_or_else(|_| "crash=panic".into());
@@ -614,6 +839,23 @@ fn gen_cases(_seed: u64, thorough: bool) -> Vec<String> {
             for cut in ["p2", "t5000", "t60000"] { cases.push(format!("kind=async max={max} script=- nfollow=2 cut={cut} api=json rt={rt} ab=S")); }
         }
     }
+    // a failing health check (the node has no such endpoint) while caller B's request is in flight on the
+    // node's cached connection; the node answers B afterwards, in time
+    for kind in ["blocking", "async"] {
+        for max in 1..=3usize {
+            for api in ["json", "msg"] { for warm in [0, 1] { cases.push(format!("kind={kind} hc=1 max={max} api={api} warm={warm}")); } }
+        }
+    }
+    // broadcasts with a node that stays silent on every attempt, several attempts and a retry delay
+    // between them: the silent node's entry is due after satt x 150 ms + (satt-1) x sdelay
+    for kind in ["blocking", "async"] {
+        for (tags, want, slow, satt, sdelay) in [("1.1", 1, 0, 3, 350), ("3.1.2", 1, 1, 3, 350), ("7.7.7", 0, 2, 2, 600), ("5", 4, 0, 3, 350), ("6.3", 2, 0, 2, 700)] {
+            cases.push(format!("kind={kind} tags={tags} want={want} slow={slow} satt={satt} sdelay={sdelay}"));
+        }
+    }
+    // broadcasts for tag "a" while other tasks keep re-registering the x nodes with tags [a] (a port
+    // that refuses) / tags [b] (server B): server B must never be reached
+    for (tx, tf, tb) in [(2, 3, 2), (3, 2, 2), (4, 3, 3)] { cases.push(format!("kind=async tog=4000 tx={tx} tf={tf} tb={tb}")); }
     cases.into_iter().enumerate().map(|(i, c)| format!("i={i} {c}")).collect()
 }
 
